@@ -70,3 +70,15 @@ def _from_be_bytes(eng, m, args, fr, dty):
     items = items_of(eng, args[0], fr)
     w, sg = INT_TYPES[m.group(1)]
     return Int(z3.Concat(*[b.e for b in items]), w, sg)
+
+
+@model(r'^<(\w+) as Iterator>::next$|^<&mut (\w+) as Iterator>::next$')
+def _generic_iter_next(eng, m, args, fr, dty):
+    """generic I: Iterator instantiated by the harness with an IterV"""
+    from .models_vec import IterV, iter_next
+    from .engine import Some, NONE
+    it = eng.deref(args[0], fr)
+    if not isinstance(it, IterV):
+        return NotImplemented
+    v = iter_next(eng, it, fr)
+    return NONE() if v is None else Some(v)
